@@ -1,6 +1,7 @@
 package main
 
 import (
+	"go/types"
 	"fmt"
 	"sort"
 	"strings"
@@ -640,7 +641,7 @@ func c02R3(c *Ctx, r *Report) {
 		return
 	}
 	// locate literals by the calls they make
-	var filterLit, filterSetLit, rowLit *ssa.Function
+	var rowLit *ssa.Function
 	lits := c15Lits(fn)
 	// row builder: calls Get1xRevAndChannels
 	for _, l := range lits {
@@ -652,41 +653,78 @@ func c02R3(c *Ctx, r *Report) {
 		r.Fail("C02-R3", "fn=handleAllDocs row-builder", c.Pos(fn.Pos()), "row builder not found")
 		return
 	}
-	// calls of closures inside rowLit: identify by free-var names
+	// the two channel filters are identified by role, not by name: closures created in handleAllDocs that capture the cell holding
+	// the user's inherited channels; the one taking a []string filters an enumeration row's channels, the one taking a ChannelMap
+	// filters the channel set of an explicitly requested document.
+	var availCell ssa.Value
+	for _, call := range c.Calls(fn, false, nameHasSuffix(".InheritedCollectionChannels")) {
+		for _, e := range resultValues(call.(*ssa.Call), 0) {
+			if refs := e.Referrers(); refs != nil {
+				for _, rf := range *refs {
+					if st, ok := rf.(*ssa.Store); ok && st.Val == e {
+						availCell = rootAddr(st.Addr)
+					}
+				}
+			}
+		}
+	}
+	filterKind := func(t types.Type) string {
+		if pt, ok := t.(*types.Pointer); ok {
+			t = pt.Elem()
+		}
+		sig, ok := t.Underlying().(*types.Signature)
+		if !ok || sig.Params().Len() != 1 || sig.Results().Len() != 1 {
+			return ""
+		}
+		if sl, ok := sig.Results().At(0).Type().Underlying().(*types.Slice); !ok || !types.Identical(sl.Elem(), types.Typ[types.String]) {
+			return ""
+		}
+		pt := sig.Params().At(0).Type()
+		if namedOf(pt) == "ChannelMap" {
+			return "set"
+		}
+		if sl, ok := pt.Underlying().(*types.Slice); ok && types.Identical(sl.Elem(), types.Typ[types.String]) {
+			return "list"
+		}
+		return ""
+	}
+	// closures of those shapes must capture the availability cell
+	capturesAvail := map[string]bool{}
+	EachInstr(fn, false, func(in ssa.Instruction) {
+		if mc, ok := in.(*ssa.MakeClosure); ok {
+			if k := filterKind(mc.Type()); k != "" {
+				for _, bnd := range mc.Bindings {
+					if availCell != nil && bnd == availCell {
+						capturesAvail[k] = true
+					}
+				}
+			}
+		}
+	})
 	var filterCalls, filterSetCalls []*ssa.Call
 	EachInstr(rowLit, false, func(in ssa.Instruction) {
 		call, ok := in.(*ssa.Call)
-		if !ok {
+		if !ok || call.Call.IsInvoke() || call.Call.StaticCallee() != nil {
 			return
 		}
 		v := call.Call.Value
 		if ld, ok := v.(*ssa.UnOp); ok {
-			if fv, ok := ld.X.(*ssa.FreeVar); ok {
-				switch fv.Name() {
-				case "filterChannels":
-					filterCalls = append(filterCalls, call)
-				case "filterChannelSet":
-					filterSetCalls = append(filterSetCalls, call)
-				}
-			}
+			v = ld.X
 		}
-		if fv, ok := v.(*ssa.FreeVar); ok {
-			switch fv.Name() {
-			case "filterChannels":
+		if _, isFV := v.(*ssa.FreeVar); !isFV {
+			return
+		}
+		switch filterKind(v.Type()) {
+		case "list":
+			if capturesAvail["list"] {
 				filterCalls = append(filterCalls, call)
-			case "filterChannelSet":
+			}
+		case "set":
+			if capturesAvail["set"] {
 				filterSetCalls = append(filterSetCalls, call)
 			}
 		}
 	})
-	for _, l := range lits {
-		switch {
-		case strings.HasSuffix(l.Name(), "$1") && l.Parent() == fn:
-		}
-		_ = l
-	}
-	_ = filterLit
-	_ = filterSetLit
 	if len(filterCalls) == 0 || len(filterSetCalls) == 0 {
 		r.Fail("C02-R3", "fn=handleAllDocs$row filters", c.Pos(rowLit.Pos()), fmt.Sprintf("channel filters not applied in the row builder (filterChannels=%d, filterChannelSet=%d)", len(filterCalls), len(filterSetCalls)))
 		return
@@ -708,9 +746,14 @@ func c02R3(c *Ctx, r *Report) {
 		if !ok {
 			return false, false
 		}
+		// the explicitly requested keys: the captured []string variable that the row builder tests against nil
 		if ld, isLoad := x.(*ssa.UnOp); isLoad {
-			if fv, isFV := ld.X.(*ssa.FreeVar); isFV && fv.Name() == "explicitDocIDs" {
-				return true, !trueMeansNil
+			if fv, isFV := ld.X.(*ssa.FreeVar); isFV {
+				if pt, ok := fv.Type().(*types.Pointer); ok {
+					if sl, ok := pt.Elem().Underlying().(*types.Slice); ok && types.Identical(sl.Elem(), types.Typ[types.String]) {
+						return true, !trueMeansNil
+					}
+				}
 			}
 		}
 		return false, false
@@ -775,7 +818,7 @@ func c02R4R5(c *Ctx, r *Report) {
 				var cb ssa.Instruction
 				EachInstr(duf, false, func(in ssa.Instruction) {
 					if cl, isCall := in.(*ssa.Call); isCall {
-						if p, isP := cl.Call.Value.(*ssa.Parameter); isP && p.Name() == "callback" {
+						if p, isP := cl.Call.Value.(*ssa.Parameter); isP && namedOf(p.Type()) == "updateAndReturnDocCallback" {
 							cb = cl
 						}
 					}
